@@ -93,6 +93,11 @@ def sweep(tier):
             'nthread': 2, 'sched': {'policy': 'static', 'strategy': 'serial', 'seed': 1}, 'compiled': False, 'prev_nthread': None}
     for n in ((256, 320, 400) if tier == 'thorough' else (256, 320)):
         yield dict(base, huge=n)
+    # complete (mesh size, thread count) sweep of the compiled kernels: a split of the mesh between threads that is
+    # computed from (n, nthread) misses rows only for particular pairs
+    nmax = 256 if tier == 'thorough' else 128
+    for lo in range(1, nmax + 1, 32):
+        yield dict(base, nt_sweep=[lo, min(lo + 32, nmax + 1)])
 
 
 def _weights(case):
@@ -213,7 +218,48 @@ def _huge(case, out):
     out['events'].append(['huge', n, want.tolist()])
 
 
+def _nt_sweep(case, out):
+    from abacusnbody.analysis import power_spectrum as rps
+    lo, hi = case['nt_sweep']
+    L = 2 * np.pi
+    for n in range(lo, hi):
+        w = (np.random.default_rng(n).random((n, n, n // 2 + 1)) + 0.5).astype(np.float32)
+        ke = np.array([0.0, 0.37 * n + 0.25, 0.71 * n + 0.25, 2.0 * n])
+        mu = np.array([0.0, 0.4, 1.0])
+        poles = np.array([0, 2], dtype=np.int64)
+        ref = None
+        for which in ('kmu', 'kppi'):
+            for T in range(1, 17):
+                if which == 'kmu':
+                    res = rps.bin_kmu(n, L, ke, mu, w, poles=poles, nthread=T)
+                else:
+                    res = rps.bin_kppi(n, L, ke, 0.5 * n + 0.3, 3, w, nthread=T)
+                res = [np.array(np.asarray(x), copy=True) for x in res]
+                if T == 1:
+                    ref = res
+                    if which == 'kmu' and int(res[1].sum()) != n ** 3:
+                        violation(out, 'modes-miscounted', 'bin_kmu[compiled]', {'mesh': n, 'nthread': 1, 'total': int(res[1].sum()), 'expected': n ** 3})
+                        return out
+                    continue
+                if not np.array_equal(res[1], ref[1]) or (which == 'kmu' and not np.array_equal(res[3], ref[3])):
+                    violation(out, 'counts-depend-on-threads', 'bin_%s[compiled]' % which,
+                              {'mesh': n, 'nthread': T, 'total_1': int(ref[1].sum()), 'total_T': int(res[1].sum())})
+                    return out
+                cnt = np.maximum(ref[1], 1)
+                if not (np.abs(res[0].astype(np.float64) - ref[0]) <= 64 * EPS32 * 1.5 * np.maximum(1.0, np.sqrt(cnt) / 4)).all():
+                    violation(out, 'values-depend-on-threads', 'bin_%s[compiled]' % which, {'mesh': n, 'nthread': T})
+                    return out
+    bump(out['probes'], 'compiled-(mesh,threads)-sweep', (hi - lo) * 16)
+    bump(out['faults'], 'real-thread-counts-1..16', hi - lo)
+    out['events'].append(['nt_sweep', lo, hi])
+    out['steps'] = (hi - lo) * 32
+    out['nontrivial'] = ['nt_sweep', lo]
+    return out
+
+
 def run(case):
+    if case.get('nt_sweep'):
+        return _nt_sweep(case, new_outcome())
     from abx_sim.analysis import power_spectrum as ps
     from e1_threads import harness as H
     from e1_threads import moderef
